@@ -88,6 +88,13 @@ def validate_tjp_file(tjp_path: str) -> Path:
     if not path.stat().st_size:
         raise FileNotFoundError(f"File is empty: {tjp_path}")
 
+    # Existing is not enough: the file must be readable
+    try:
+        with open(path, "rb"):
+            pass
+    except OSError as e:
+        raise FileNotFoundError(f"File is not readable: {tjp_path} ({e})") from e
+
     return path
 
 
